@@ -5,6 +5,7 @@ package c09
 import (
 	"bytes"
 	"encoding/json"
+	"errors"
 	"fmt"
 	"io"
 	"os"
@@ -35,6 +36,25 @@ type Case struct {
 	Tags     []T   `json:"tags"`
 	SegKind  int   `json:"seg_kind"`
 	Seg      []int `json:"seg,omitempty"`
+	// Refuse: the transport refuses (0 bytes taken, error) the first write of these tags once; each such
+	// WriteTag must fail, nothing of the tag may reach the file, and the tags written afterwards follow cleanly
+	Refuse []int `json:"refuse,omitempty"`
+}
+
+var errRefused = errors.New("transport refuses this write")
+
+// refusing is the muxer's transport: it refuses the next Write call once when armed.
+type refusing struct {
+	buf   bytes.Buffer
+	armed bool
+}
+
+func (r *refusing) Write(p []byte) (int, error) {
+	if r.armed {
+		r.armed = false
+		return 0, errRefused
+	}
+	return r.buf.Write(p)
 }
 
 func (c Case) tags() []flvref.Tag {
@@ -95,9 +115,11 @@ func demux(file []byte, c Case, want []flvref.Tag) error {
 }
 
 func runCase(c Case) error {
-	want := c.tags()
-	var buf bytes.Buffer
-	m, err := flv.NewMuxer(&buf)
+	all := c.tags()
+	var want []flvref.Tag
+	tr := &refusing{}
+	buf := &tr.buf
+	m, err := flv.NewMuxer(tr)
 	if err != nil {
 		return err
 	}
@@ -107,18 +129,32 @@ func runCase(c Case) error {
 	// the bodies handed to the muxer are windows into one buffer of the application (as when
 	// frames are cut out of a received packet): each has spare capacity that belongs to the
 	// application - the next body - and none of it may change
+	refuse := map[int]bool{}
+	for _, i := range c.Refuse {
+		refuse[i] = true
+	}
 	var arena []byte
-	for _, t := range want {
+	for _, t := range all {
 		arena = append(arena, t.Body...)
 	}
 	arena = append(arena, "guard bytes after the last body"...)
 	pristine := append([]byte(nil), arena...)
 	off := 0
-	for i, t := range want {
-		if err := m.WriteTag(flv.TagType(t.Type), t.Timestamp, arena[off:off+len(t.Body)]); err != nil {
+	for i, t := range all {
+		tr.armed = refuse[i]
+		err := m.WriteTag(flv.TagType(t.Type), t.Timestamp, arena[off:off+len(t.Body)])
+		off += len(t.Body)
+		if refuse[i] {
+			if err == nil {
+				return fmt.Errorf("WriteTag %d: nil error although the transport refused its first write", i)
+			}
+			tr.armed = false
+			continue // nothing of this tag was taken by the transport
+		}
+		if err != nil {
 			return fmt.Errorf("WriteTag %d: %v", i, err)
 		}
-		off += len(t.Body)
+		want = append(want, t)
 	}
 	if err := m.Close(); err != nil {
 		return err
@@ -205,6 +241,9 @@ func TestFiles(t *testing.T) {
 		if c.SegKind == 2 || c.SegKind == 3 {
 			c.Seg = rapid.SliceOfN(rapid.IntRange(1, 40), 1, 8).Draw(t, "seg")
 		}
+		if n > 0 && rapid.IntRange(0, 4).Draw(t, "refusek") == 0 {
+			c.Refuse = rapid.SliceOfNDistinct(rapid.IntRange(0, n-1), 1, 2, rapid.ID[int]).Draw(t, "refuse")
+		}
 		err := ev.Try(func() error { return runCase(c) })
 		var cl []string
 		for _, tg := range c.Tags {
@@ -220,6 +259,9 @@ func TestFiles(t *testing.T) {
 		}
 		if c.SegKind != 0 {
 			cl = append(cl, "segmented")
+		}
+		if len(c.Refuse) > 0 {
+			cl = append(cl, "write-refused-once")
 		}
 		rec.Case(len(cl) > 0, ev.Hash(c), cl, func() any { return c })
 		if err != nil {
@@ -244,14 +286,56 @@ func TestBigBodies(t *testing.T) {
 	}
 }
 
+// TestSizeSweep: every body size from 2^k-20 to 2^k+4 for k = 8..16 (a buffer of a round size minus
+// the 11-byte header and the 4-byte trailer ends somewhere in that window), followed by a small tag.
+func TestSizeSweep(t *testing.T) {
+	rec := ev.New(prop, "size-sweep", "deterministic: body sizes 2^k-20 .. 2^k+4 for k = 8..16 (225 sizes), each followed by a small tag, read whole and in drawn pieces; plus tags whose 11-byte header spells the file signature "+
+		"('F' 'L' 'V' ...: type 0x46, size 0x4C56xx); all non-trivial")
+	rec.Exhaustive()
+	i := 0
+	run := func(c Case) {
+		i++
+		if i%ev.Shards() != ev.Shard() {
+			return
+		}
+		err := ev.Try(func() error { return runCase(c) })
+		rec.Case(true, ev.Hash(c), nil, func() any { return c })
+		if err != nil {
+			p := ev.Fail(prop, "files", c, err)
+			t.Fatalf("%v (replay %s)", err, p)
+		}
+	}
+	for k := 8; k <= 16; k++ {
+		for d := -20; d <= 4; d++ {
+			n := 1<<uint(k) + d
+			run(Case{HasVideo: true, HasAudio: true, Tags: []T{{Type: 9, Ts: uint32(n), Len: n, Fill: uint64(n)}, {Type: 8, Ts: 5, Len: 3, Fill: 9}}, SegKind: (k + d + 40) % xport.SegKinds, Seg: []int{4096, 7, 1000}})
+		}
+	}
+	for _, low := range []int{0x00, 0x01, 0xff} {
+		run(Case{HasVideo: true, HasAudio: true, Tags: []T{{Type: 8, Ts: 1, Len: 2, Fill: 1}, {Type: 0x46, Ts: 0x01000009, Len: 0x4C5600 + low, Fill: 3}, {Type: 9, Ts: 7, Len: 5, Fill: 2}}, SegKind: low % xport.SegKinds, Seg: []int{65536, 11}})
+	}
+}
+
+// TestSideBySide: independent muxers/demuxers on several goroutines at once.
+func TestSideBySide(t *testing.T) {
+	ev.Parallel(t, prop, "side-by-side", 3, 200, 60, func(t *rapid.T) Case {
+		c := Case{HasVideo: rapid.Bool().Draw(t, "hv"), HasAudio: rapid.Bool().Draw(t, "ha"), SegKind: rapid.IntRange(0, xport.SegKinds-1).Draw(t, "segk"), Seg: []int{3, 500, 11}}
+		for i, n := 0, rapid.IntRange(1, 8).Draw(t, "n"); i < n; i++ {
+			c.Tags = append(c.Tags, T{Type: rapid.SampledFrom([]uint8{8, 9, 18}).Draw(t, "type"), Ts: rapid.Uint32().Draw(t, "ts"), Len: rapid.SampledFrom([]int{0, 1, 10, 255, 256, 4000, 40000}).Draw(t, "len"), Fill: rapid.Uint64().Draw(t, "fill")})
+		}
+		return c
+	}, runCase)
+}
+
 func replayers() map[string]ev.Replayer {
-	return map[string]ev.Replayer{"files": func(raw json.RawMessage) error {
+	f := func(raw json.RawMessage) error {
 		var c Case
 		if err := json.Unmarshal(raw, &c); err != nil {
 			return err
 		}
 		return runCase(c)
-	}}
+	}
+	return map[string]ev.Replayer{"files": f, "side-by-side": f}
 }
 
 func TestRegress(t *testing.T) { ev.Regress(t, prop, replayers()) }
